@@ -227,11 +227,13 @@ class SimTask(experiment.runtime.task.Task):
         spec = self.spec
         t0 = simk.K.clock
         killed = False
-        for (off, fname, content) in sorted(spec.get('outs') or []):
+        for out in sorted(spec.get('outs') or []):
+            (off, fname, content) = out[:3]
             if self._sleep_until(t0 + off):
                 killed = True
                 break
-            self._write(fname, content)
+            # optional 4th element 'w': the task rewrites the file (e.g. a loop condition) instead of appending to it
+            self._write(fname, content, append=not (len(out) > 3 and out[3] == 'w'))
         if not killed:
             killed = self._sleep_until(t0 + spec['dur'])
         if killed:
